@@ -51,6 +51,8 @@ package unserializers
 //@   assigns \nothing
 //@   ensures [C04:unserialize:oneOf] (result1 == nil) != (result0 == nil)
 //@   ensures [C04:unserialize:complete] result1 == nil ==> result0.Metadata != nil && result0.NodeList != nil
+//@   ensures [C03:spdx:read:roots] result1 == nil ==> (forall j int :: 0 <= j && j < len(spdxdoc(r).Relationships) && (spdxdoc(r).Relationships[j].RefA.ElementRefID == "DOCUMENT" && strings.EqualFold(spdxdoc(r).Relationships[j].Relationship, "DESCRIBES")) ==> (spdxdoc(r).Relationships[j].RefB.ElementRefID in elems(result0.NodeList.RootElements)))
+//@   invariant L3: [C03:inv] forall j int :: 0 <= j && j < _i && (spdxDoc.Relationships[j].RefA.ElementRefID == "DOCUMENT" && strings.EqualFold(spdxDoc.Relationships[j].Relationship, "DESCRIBES")) ==> (spdxDoc.Relationships[j].RefB.ElementRefID in elems(bom.NodeList.RootElements))
 //@   ensures [C03:spdx:read:packages] result1 == nil ==> (forall i int :: 0 <= i && i < len(spdxdoc(r).Packages) && spdxdoc(r).Packages[i] != nil ==> (spdxdoc(r).Packages[i].PackageSPDXIdentifier in fieldset(result0.NodeList.Nodes, Id)))
 //@   ensures [C03:spdx:read:files] result1 == nil ==> (forall i int :: 0 <= i && i < len(spdxdoc(r).Files) && spdxdoc(r).Files[i] != nil ==> (spdxdoc(r).Files[i].FileSPDXIdentifier in fieldset(result0.NodeList.Nodes, Id)))
 //@   invariant L1: bom != nil && fresh(bom) && bom.NodeList != nil && fresh(bom.NodeList) && (cap(bom.NodeList.Nodes) == 0 || fresh(arr(bom.NodeList.Nodes))) && (cap(bom.NodeList.Edges) == 0 || fresh(arr(bom.NodeList.Edges))) && (cap(bom.NodeList.RootElements) == 0 || fresh(arr(bom.NodeList.RootElements)))
